@@ -399,7 +399,7 @@ def compile_lits(c, lits):
     """returns {index: (coeff, scale)} for the literals that compile; the others fail to compile"""
     run = run_cmd
     d = os.path.join(HARN, 'lits')
-    shutil.copy(os.path.join(os.environ.get('VP_RUN_REPO', '/repo'), 'Cargo.lock'), os.path.join(d, 'Cargo.lock'))
+    shutil.copy('/repo/Cargo.lock', os.path.join(d, 'Cargo.lock'))
     os.makedirs(os.path.join(d, 'src'), exist_ok=True)
     alive = list(range(len(lits)))
     failed = set()
